@@ -19,8 +19,8 @@
         /// what a successful result must satisfy even where `spec_dec` is not functional (raw byte payloads:
         /// `Vec` values have no spec-level equality, so the relation is over the view)
         spec fn dec_rel(b: Seq<u8>, v: &T, k: int) -> bool;
-        /// the decoder never fails (only the raw copy)
-        spec fn dec_total() -> bool;
+        /// inputs on which the decoder is known to succeed
+        spec fn dec_total(b: Seq<u8>) -> bool;
         /// where a successful decode may stop (tag loops: only in front of something that is not one of their own tags)
         spec fn dec_stop(rest: Seq<u8>) -> bool;
 
@@ -42,7 +42,7 @@
         //@ tag dec.rel C14 C11
                 r matches Ok((v2, rest)) ==> Self::dec_rel(bytes@, &v2, bytes@.len() - rest@.len()),
         //@ tag dec.total C02
-                Self::dec_total() ==> r is Ok,
+                Self::dec_total(bytes@) ==> r is Ok,
         //@ tag dec.stop C13
                 r matches Ok((v2, rest)) ==> Self::dec_stop(rest@),
         //@ end
@@ -92,7 +92,7 @@
         //@ end
         open spec fn self_delimiting() -> bool { true }
         open spec fn dec_rel(b: Seq<u8>, v: &Tag, k: int) -> bool { true }
-        open spec fn dec_total() -> bool { false }
+        open spec fn dec_total(b: Seq<u8>) -> bool { false }
         open spec fn dec_stop(rest: Seq<u8>) -> bool { true }
         open spec fn functional() -> bool { true }
         proof fn law_dec_bounds(b: Seq<u8>) {}
@@ -124,7 +124,7 @@
         //@ end
         open spec fn self_delimiting() -> bool { true }
         open spec fn dec_rel(b: Seq<u8>, v: &Tag, k: int) -> bool { true }
-        open spec fn dec_total() -> bool { false }
+        open spec fn dec_total(b: Seq<u8>) -> bool { false }
         open spec fn dec_stop(rest: Seq<u8>) -> bool { true }
         open spec fn functional() -> bool { true }
         proof fn law_dec_bounds(b: Seq<u8>) {}
@@ -159,7 +159,7 @@
         //@ end
         open spec fn self_delimiting() -> bool { E::self_delimiting() }
         open spec fn dec_rel(b: Seq<u8>, v: &Option<T>, k: int) -> bool { true }
-        open spec fn dec_total() -> bool { false }
+        open spec fn dec_total(b: Seq<u8>) -> bool { false }
         open spec fn dec_stop(rest: Seq<u8>) -> bool { true }
         open spec fn functional() -> bool { E::functional() }
         proof fn law_dec_bounds(b: Seq<u8>) { E::law_dec_bounds(b); }
@@ -191,7 +191,7 @@
         //@ end
         open spec fn self_delimiting() -> bool { false }
         open spec fn dec_rel(b: Seq<u8>, v: &Vec<T>, k: int) -> bool { true }
-        open spec fn dec_total() -> bool { false }
+        open spec fn dec_total(b: Seq<u8>) -> bool { false }
         open spec fn dec_stop(rest: Seq<u8>) -> bool { true }
         open spec fn functional() -> bool { true }
         proof fn law_dec_bounds(b: Seq<u8>) {}
@@ -218,7 +218,7 @@
         //@ end
         open spec fn self_delimiting() -> bool { false }
         open spec fn dec_rel(b: Seq<u8>, v: &String, k: int) -> bool { true }
-        open spec fn dec_total() -> bool { false }
+        open spec fn dec_total(b: Seq<u8>) -> bool { false }
         open spec fn dec_stop(rest: Seq<u8>) -> bool { true }
         open spec fn functional() -> bool { true }
         proof fn law_dec_bounds(b: Seq<u8>) {}
@@ -243,7 +243,7 @@
         //@ end
         open spec fn self_delimiting() -> bool { false }
         open spec fn dec_rel(b: Seq<u8>, v: &String, k: int) -> bool { true }
-        open spec fn dec_total() -> bool { false }
+        open spec fn dec_total(b: Seq<u8>) -> bool { false }
         open spec fn dec_stop(rest: Seq<u8>) -> bool { true }
         open spec fn functional() -> bool { true }
         proof fn law_dec_bounds(b: Seq<u8>) {}
@@ -352,7 +352,7 @@
         open spec fn progresses() -> bool { false }
         open spec fn self_delimiting() -> bool { false }
         open spec fn dec_rel(b: Seq<u8>, v: &String, k: int) -> bool { true }
-        open spec fn dec_total() -> bool { false }
+        open spec fn dec_total(b: Seq<u8>) -> bool { false }
         open spec fn dec_stop(rest: Seq<u8>) -> bool { true }
         open spec fn functional() -> bool { true }
         //@ fn src:zvt_builder/src/encoding.rs | impl Encoding<String> for Utf8 | encode | props=C17,C01 $M
@@ -365,62 +365,299 @@
         proof fn law_inverse(v: &String) {}
     }
 
-    // ------------------------------------------------------------------ date/time (chrono: external crate, T4: constructors total, accessors in range)
+    // ------------------------------------------------------------------ date/time (chrono: external crate, T4)
+    // chrono is outside reach. Trusted (T4): a NaiveDateTime with zero sub-second part is determined by its six calendar
+    // fields (`dt_of`); the accessors return those fields, in their documented ranges; `from_ymd_opt` / `and_hms_opt` succeed
+    // exactly on valid dates / times and build the value with those fields.
     #[verifier::external_body]
     pub struct NaiveDate { _p: u8 }
     #[verifier::external_body]
     pub struct NaiveDateTime { _p: u8 }
+    pub uninterp spec fn dt_of(y: int, m: int, d: int, h: int, mi: int, s: int) -> NaiveDateTime;
     impl NaiveDate {
-        pub uninterp spec fn ymd_valid(y: i32, m: u32, d: u32) -> bool;
+        pub uninterp spec fn ymd_valid(y: int, m: int, d: int) -> bool;
+        pub uninterp spec fn s_ymd(&self) -> (int, int, int);
         /// `None` for dates that do not exist
         #[verifier::external_body]
-        pub fn from_ymd_opt(year: i32, month: u32, day: u32) -> (r: Option<NaiveDate>) { unimplemented!() }
+        pub fn from_ymd_opt(year: i32, month: u32, day: u32) -> (r: Option<NaiveDate>)
+            ensures
+                r is Some <==> Self::ymd_valid(year as int, month as int, day as int),
+                r matches Some(nd) ==> nd.s_ymd() == (year as int, month as int, day as int),
+        { unimplemented!() }
         #[verifier::external_body]
-        pub fn and_hms_opt(&self, hour: u32, min: u32, sec: u32) -> (r: Option<NaiveDateTime>) { unimplemented!() }
+        pub fn and_hms_opt(&self, hour: u32, min: u32, sec: u32) -> (r: Option<NaiveDateTime>)
+            ensures
+                r is Some <==> (hour < 24 && min < 60 && sec < 60),
+                r matches Some(dt) ==> dt == dt_of(self.s_ymd().0, self.s_ymd().1, self.s_ymd().2, hour as int, min as int, sec as int),
+        { unimplemented!() }
     }
     impl NaiveDateTime {
+        pub uninterp spec fn s_year(&self) -> int;
+        pub uninterp spec fn s_month(&self) -> int;
+        pub uninterp spec fn s_day(&self) -> int;
+        pub uninterp spec fn s_hour(&self) -> int;
+        pub uninterp spec fn s_minute(&self) -> int;
+        pub uninterp spec fn s_second(&self) -> int;
+        /// no sub-second part: the value is the one its calendar fields determine
+        pub open spec fn whole_second(&self) -> bool {
+            *self == dt_of(self.s_year(), self.s_month(), self.s_day(), self.s_hour(), self.s_minute(), self.s_second())
+        }
         // chrono::Datelike / chrono::Timelike accessors (documented ranges)
         #[verifier::external_body]
-        pub fn year(&self) -> (r: i32) ensures -262144 <= r <= 262143 { unimplemented!() }
+        pub fn year(&self) -> (r: i32) ensures r == self.s_year(), -262144 <= r <= 262143 { unimplemented!() }
         #[verifier::external_body]
-        pub fn month(&self) -> (r: u32) ensures 1 <= r <= 12 { unimplemented!() }
+        pub fn month(&self) -> (r: u32) ensures r == self.s_month(), 1 <= r <= 12 { unimplemented!() }
         #[verifier::external_body]
-        pub fn day(&self) -> (r: u32) ensures 1 <= r <= 31 { unimplemented!() }
+        pub fn day(&self) -> (r: u32) ensures r == self.s_day(), 1 <= r <= 31 { unimplemented!() }
         #[verifier::external_body]
-        pub fn hour(&self) -> (r: u32) ensures r <= 23 { unimplemented!() }
+        pub fn hour(&self) -> (r: u32) ensures r == self.s_hour(), r <= 23 { unimplemented!() }
         #[verifier::external_body]
-        pub fn minute(&self) -> (r: u32) ensures r <= 59 { unimplemented!() }
+        pub fn minute(&self) -> (r: u32) ensures r == self.s_minute(), r <= 59 { unimplemented!() }
         #[verifier::external_body]
-        pub fn second(&self) -> (r: u32) ensures r <= 59 { unimplemented!() }
+        pub fn second(&self) -> (r: u32) ensures r == self.s_second(), r <= 59 { unimplemented!() }
     }
-    pub uninterp spec fn datetime_enc(v: &NaiveDateTime) -> Seq<u8>;
-    pub uninterp spec fn datetime_dec(b: Seq<u8>) -> Option<(NaiveDateTime, int)>;
+    /// T4: every NaiveDateTime is a valid date and time of day (what the accessors' ranges say, at spec level)
+    #[verifier::external_body]
+    pub proof fn axiom_datetime_fields(v: &NaiveDateTime)
+        ensures
+            NaiveDate::ymd_valid(v.s_year(), v.s_month(), v.s_day()),
+            -262144 <= v.s_year() <= 262143, 1 <= v.s_month() <= 12, 1 <= v.s_day() <= 31,
+            0 <= v.s_hour() <= 23, 0 <= v.s_minute() <= 59, 0 <= v.s_second() <= 59,
+    {}
+    pub open spec fn DATE_TAG() -> u16 { 0x1f0e }
+    pub open spec fn TIME_TAG() -> u16 { 0x1f0f }
+    /// YYYYMMDD
+    pub open spec fn date_num(v: &NaiveDateTime) -> int { v.s_year() * 10000 + v.s_month() * 100 + v.s_day() }
+    /// HHMMSS
+    pub open spec fn time_num(v: &NaiveDateTime) -> int { v.s_hour() * 10000 + v.s_minute() * 100 + v.s_second() }
+    /// the date as BCD number under TLV tag 1f0e, then the time under 1f0f
+    pub open spec fn datetime_enc(v: &NaiveDateTime) -> Seq<u8> {
+        default_spec_ser::<usize, length::Tlv, Bcd, Default>(&(date_num(v) as usize), Some(Tag(DATE_TAG())))
+            + default_spec_ser::<u32, length::Tlv, Bcd, Default>(&(time_num(v) as u32), Some(Tag(TIME_TAG())))
+    }
+    /// the reader's walk over the two sub-tags in any order: (date, time, tags seen, bytes consumed); None = error
+    pub open spec fn dt_walk(b: Seq<u8>, date: usize, time: u32, seen: Set<u16>) -> Option<(usize, u32, Set<u16>, int)>
+        decreases b.len(), 1int
+    {
+        if b.len() == 0 { Some((date, time, seen, 0int)) } else { dt_step(b, date, time, seen) }
+    }
+    pub open spec fn dt_shift(r: Option<(usize, u32, Set<u16>, int)>, k: int) -> Option<(usize, u32, Set<u16>, int)> {
+        match r { None => None, Some((d, t, s, c)) => Some((d, t, s, c + k)) }
+    }
+    /// one round of the reader's loop on a non-empty input
+    #[verifier::opaque]
+    pub open spec fn dt_step(b: Seq<u8>, date: usize, time: u32, seen: Set<u16>) -> Option<(usize, u32, Set<u16>, int)>
+        decreases b.len(), 0int
+    {
+        match <Default as Encoding<Tag>>::spec_dec(b) {
+            None => None,
+            Some((t, _)) =>
+                if t.0 == DATE_TAG() {
+                    if seen.contains(DATE_TAG()) { None } else {
+                        match default_spec_deser::<usize, length::Tlv, Bcd, Default>(b, Some(Tag(DATE_TAG()))) {
+                            None => None,
+                            Some((v, k)) => if k <= 0 || k > b.len() { None } else { dt_shift(dt_walk(b.skip(k), v, time, seen.insert(DATE_TAG())), k) },
+                        }
+                    }
+                } else if t.0 == TIME_TAG() {
+                    if seen.contains(TIME_TAG()) { None } else {
+                        match default_spec_deser::<u32, length::Tlv, Bcd, Default>(b, Some(Tag(TIME_TAG()))) {
+                            None => None,
+                            Some((v, k)) => if k <= 0 || k > b.len() { None } else { dt_shift(dt_walk(b.skip(k), date, v, seen.insert(TIME_TAG())), k) },
+                        }
+                    }
+                } else { Some((date, time, seen, 0int)) },
+        }
+    }
+    pub proof fn lemma_dt_step(b: Seq<u8>, date: usize, time: u32, seen: Set<u16>)
+        ensures dt_step(b, date, time, seen) == (match <Default as Encoding<Tag>>::spec_dec(b) {
+            None => None,
+            Some((t, _)) =>
+                if t.0 == DATE_TAG() {
+                    if seen.contains(DATE_TAG()) { None } else {
+                        match default_spec_deser::<usize, length::Tlv, Bcd, Default>(b, Some(Tag(DATE_TAG()))) {
+                            None => None,
+                            Some((v, k)) => if k <= 0 || k > b.len() { None } else { dt_shift(dt_walk(b.skip(k), v, time, seen.insert(DATE_TAG())), k) },
+                        }
+                    }
+                } else if t.0 == TIME_TAG() {
+                    if seen.contains(TIME_TAG()) { None } else {
+                        match default_spec_deser::<u32, length::Tlv, Bcd, Default>(b, Some(Tag(TIME_TAG()))) {
+                            None => None,
+                            Some((v, k)) => if k <= 0 || k > b.len() { None } else { dt_shift(dt_walk(b.skip(k), date, v, seen.insert(TIME_TAG())), k) },
+                        }
+                    }
+                } else { Some((date, time, seen, 0int)) },
+        })
+    {
+        reveal(dt_step);
+    }
+    /// the date number the walk delivers fits i32 (every four-digit-year date does): the only inputs on which the decoder's
+    /// arithmetic is specified
+    pub open spec fn dt_in_range(b: Seq<u8>) -> bool {
+        dt_walk(b, 0usize, 0u32, Set::<u16>::empty()) matches Some((date, time, seen, c)) ==> date <= 0x7fff_ffff
+    }
+    /// both sub-tags exactly once, a date that exists and a time of day that exists
+    pub open spec fn datetime_dec(b: Seq<u8>) -> Option<(NaiveDateTime, int)> {
+        match dt_walk(b, 0usize, 0u32, Set::<u16>::empty()) {
+            None => None,
+            Some((date, time, seen, c)) =>
+                if !(seen.finite() && seen.len() == 2) { None } else {
+                    let y = (date as i32 / 10000) as int;
+                    let m = ((date as u32 % 10000) / 100) as int;
+                    let d = (date as u32 % 100) as int;
+                    let (h, mi, s) = ((time / 10000) as int, ((time % 10000) / 100) as int, (time % 100) as int);
+                    if NaiveDate::ymd_valid(y, m, d) && h < 24 && mi < 60 && s < 60 { Some((dt_of(y, m, d, h, mi, s), c)) } else { None }
+                },
+        }
+    }
     impl Encoding<NaiveDateTime> for Default {
-        /// year 0..=9999 (four BCD digits)
-        uninterp spec fn enc_ok(v: &NaiveDateTime) -> bool;
-        open spec fn canon(v: &NaiveDateTime) -> bool { false }
+        /// four-digit year; the two BCD fields are representable
+        open spec fn enc_ok(v: &NaiveDateTime) -> bool {
+            &&& 0 <= v.s_year() <= 9999
+            &&& default_ser_pre::<usize, length::Tlv, Bcd, Default>(&(date_num(v) as usize), Some(Tag(DATE_TAG())))
+            &&& default_ser_pre::<u32, length::Tlv, Bcd, Default>(&(time_num(v) as u32), Some(Tag(TIME_TAG())))
+        }
+        /// the wire format carries whole seconds only
+        open spec fn canon(v: &NaiveDateTime) -> bool { v.whole_second() }
         open spec fn spec_enc(v: &NaiveDateTime) -> Seq<u8> { datetime_enc(v) }
         open spec fn spec_dec(b: Seq<u8>) -> Option<(NaiveDateTime, int)> { datetime_dec(b) }
         open spec fn progresses() -> bool { false }
         open spec fn self_delimiting() -> bool { false }
-        open spec fn dec_rel(b: Seq<u8>, v: &NaiveDateTime, k: int) -> bool { true }
-        open spec fn dec_total() -> bool { false }
+        /// on inputs whose date number fits i32 the decoder is exactly `datetime_dec` (see `dt_in_range`)
+        open spec fn dec_rel(b: Seq<u8>, v: &NaiveDateTime, k: int) -> bool { dt_in_range(b) ==> datetime_dec(b) == Some((*v, k)) }
+        open spec fn dec_total(b: Seq<u8>) -> bool { dt_in_range(b) && datetime_dec(b) is Some }
         open spec fn dec_stop(rest: Seq<u8>) -> bool { true }
-        /// only totality and the frame clause are proved for the date decoder
+        /// `spec_dec` is the reference decoder; the code agrees with it on in-range inputs (`dec_rel`, `dec_total`). It is not
+        /// claimed beyond: Rust's `/` on a negative i32 (a date number >= 2^31 reinterpreted) has no Verus specification
         open spec fn functional() -> bool { false }
-        //@ fn src:zvt_builder/src/encoding.rs | impl Encoding<NaiveDateTime> for Default | encode | ext
+        //@ fn src:zvt_builder/src/encoding.rs | impl Encoding<NaiveDateTime> for Default | encode | props=C17,C03,C01 $M
+        //@ entry
+            proof { axiom_datetime_fields(input); }
         //@ end
-        //@ fn src:zvt_builder/src/encoding.rs | impl Encoding<NaiveDateTime> for Default | decode | all-loops props=C02 $M
+        //@ fn src:zvt_builder/src/encoding.rs | impl Encoding<NaiveDateTime> for Default | decode | all-loops shadowmut also=C17,C01 props=C02,C17,C01 $M
         //@ loop 0
                 invariant
-                    is_tail(data@, data0),
+                    is_tail(data@, __p_data@),
+        //@ tag datetime.walk C17 C01 C13
+                    // what is left to do on the rest of the input, from the current state, is what the walk of the whole input does
+                    datetime_walk_from(__p_data@, data@, date, time, seen_tags@),
+                ensures
+                    dt_walk(data@, date, time, seen_tags@) == Some((date, time, seen_tags@, 0int)),
                 decreases data@.len(),
         //@ entry
-            let ghost data0 = data@;
+            hide(crate::default_spec_deser);
+            proof { assert(__p_data@.skip(0) =~= __p_data@); }
+        //@ before lettag:Tag=
+            proof { lemma_dt_step(data@, date, time, seen_tags@); }
         //@ end
-        proof fn law_dec_bounds(b: Seq<u8>) {}
+        proof fn law_dec_bounds(b: Seq<u8>) { lemma_dt_walk_bounds(b, 0usize, 0u32, Set::<u16>::empty()); }
         proof fn law_dec_frame(b: Seq<u8>, s: Seq<u8>) {}
-        proof fn law_inverse(v: &NaiveDateTime) {}
+        //@ tag enc.law_inverse.datetime C17 C01
+        /// a whole-second date-time with a four-digit year reads back as itself, consuming exactly its encoding
+        proof fn law_inverse(v: &NaiveDateTime) {
+            lemma_datetime_roundtrip(v);
+        }
+        //@ untag
+    }
+    /// a TLV/BCD field written by the reference serialiser, followed by anything: it starts with its tag and reads back
+    pub proof fn lemma_field_first<T, E: Encoding<T>>(v: &T, t: Tag, s: Seq<u8>)
+        requires
+            default_ser_pre::<T, length::Tlv, E, Default>(v, Some(t)),
+            E::canon(v),
+        ensures
+            ({
+                let e1 = default_spec_ser::<T, length::Tlv, E, Default>(v, Some(t));
+                &&& <Default as Encoding<Tag>>::spec_dec(e1 + s) matches Some((t2, _)) && t2 == t
+                &&& default_spec_deser::<T, length::Tlv, E, Default>(e1 + s, Some(t)) == Some((*v, e1.len() as int))
+                &&& e1.len() >= 1
+            }),
+    {
+        let enc = E::spec_enc(v);
+        let lenb = <length::Tlv as length::Length>::spec_ser(enc.len() as usize);
+        let tb = <Default as Encoding<Tag>>::spec_enc(&t);
+        let e1 = default_spec_ser::<T, length::Tlv, E, Default>(v, Some(t));
+        E::law_inverse(v);
+        assert(<length::Tlv as length::Length>::spec_pad(enc.len() as usize) =~= Seq::<u8>::empty());
+        assert(Seq::<u8>::empty() + enc =~= enc);
+        crate::lemma_tagged_inverse::<T, length::Tlv, E, Default>(v, Some(t), s);
+        <Default as Encoding<Tag>>::law_inverse(&t);
+        <Default as Encoding<Tag>>::law_dec_frame(tb, lenb + enc + s);
+        assert(e1 + s =~= tb + (lenb + enc + s));
+        assert(tb.len() >= 1);
+    }
+    /// YYYYMMDD / HHMMSS split back into the calendar fields
+    pub proof fn lemma_date_split(y: int, m: int, d: int, h: int, mi: int, sc: int)
+        requires 0 <= y <= 9999, 1 <= m <= 12, 1 <= d <= 31, 0 <= h <= 23, 0 <= mi <= 59, 0 <= sc <= 59,
+        ensures
+            ({
+                let dn = (y * 10000 + m * 100 + d) as usize;
+                let tn = (h * 10000 + mi * 100 + sc) as u32;
+                &&& dn <= 0x7fff_ffff
+                &&& (dn as i32 / 10000) as int == y && ((dn as u32 % 10000) / 100) as int == m && (dn as u32 % 100) as int == d
+                &&& (tn / 10000) as int == h && ((tn % 10000) / 100) as int == mi && (tn % 100) as int == sc
+            }),
+    {}
+    pub proof fn lemma_datetime_roundtrip(v: &NaiveDateTime)
+        requires <Default as Encoding<NaiveDateTime>>::enc_ok(v), v.whole_second(),
+        ensures
+            datetime_dec(datetime_enc(v)) == Some((*v, datetime_enc(v).len() as int)),
+            dt_in_range(datetime_enc(v)),
+    {
+        hide(crate::default_spec_deser);
+        hide(crate::default_spec_ser);
+        axiom_datetime_fields(v);
+        lemma_date_split(v.s_year(), v.s_month(), v.s_day(), v.s_hour(), v.s_minute(), v.s_second());
+        let dn = date_num(v) as usize;
+        let tn = time_num(v) as u32;
+        let e1 = default_spec_ser::<usize, length::Tlv, Bcd, Default>(&dn, Some(Tag(DATE_TAG())));
+        let e2 = default_spec_ser::<u32, length::Tlv, Bcd, Default>(&tn, Some(Tag(TIME_TAG())));
+        let e = e1 + e2;
+        let s0 = Set::<u16>::empty();
+        let s1 = s0.insert(DATE_TAG());
+        let s2 = s1.insert(TIME_TAG());
+        lemma_field_first::<usize, Bcd>(&dn, Tag(DATE_TAG()), e2);
+        lemma_field_first::<u32, Bcd>(&tn, Tag(TIME_TAG()), Seq::<u8>::empty());
+        assert(e2 + Seq::<u8>::empty() =~= e2);
+        assert(e.skip(e1.len() as int) =~= e2);
+        assert(e2.skip(e2.len() as int) =~= Seq::<u8>::empty());
+        lemma_dt_step(e, 0usize, 0u32, s0);
+        lemma_dt_step(e2, dn, 0u32, s1);
+        assert(dt_walk(Seq::<u8>::empty(), dn, tn, s2) == Some((dn, tn, s2, 0int)));
+        assert(dt_walk(e2, dn, 0u32, s1) == Some((dn, tn, s2, e2.len() as int)));
+        assert(dt_walk(e, 0usize, 0u32, s0) == Some((dn, tn, s2, (e1.len() + e2.len()) as int)));
+        assert(s2.finite() && s2.len() == 2);
+        assert(datetime_enc(v) == e);
+    }
+    pub proof fn lemma_dt_walk_bounds(b: Seq<u8>, date: usize, time: u32, seen: Set<u16>)
+        ensures dt_walk(b, date, time, seen) matches Some((d, t, s, c)) ==> 0 <= c <= b.len(),
+        decreases b.len(),
+    {
+        if b.len() > 0 {
+            lemma_dt_step(b, date, time, seen);
+            match <Default as Encoding<Tag>>::spec_dec(b) {
+                None => {},
+                Some((t, _)) => {
+                    if t.0 == DATE_TAG() {
+                        match default_spec_deser::<usize, length::Tlv, Bcd, Default>(b, Some(Tag(DATE_TAG()))) {
+                            None => {},
+                            Some((v, k)) => { if 0 < k <= b.len() { lemma_dt_walk_bounds(b.skip(k), v, time, seen.insert(DATE_TAG())); } },
+                        }
+                    } else if t.0 == TIME_TAG() {
+                        match default_spec_deser::<u32, length::Tlv, Bcd, Default>(b, Some(Tag(TIME_TAG()))) {
+                            None => {},
+                            Some((v, k)) => { if 0 < k <= b.len() { lemma_dt_walk_bounds(b.skip(k), date, v, seen.insert(TIME_TAG())); } },
+                        }
+                    }
+                },
+            }
+        }
+    }
+    /// loop invariant of the date decoder: walking the rest from the current state completes the walk of the whole input
+    pub open spec fn datetime_walk_from(b0: Seq<u8>, rest: Seq<u8>, date: usize, time: u32, seen: Set<u16>) -> bool {
+        &&& rest.len() <= b0.len()
+        &&& seen.finite()
+        &&& dt_walk(b0, 0usize, 0u32, Set::<u16>::empty()) == dt_shift(dt_walk(rest, date, time, seen), b0.len() - rest.len())
     }
     //@ include ../prelude/tagset.rs TAGSET_INSERT=$TSI TAGSET_REMOVE=$TSR
     impl<L: length::Length, E: encoding::Encoding<NaiveDateTime>, TE: encoding::Encoding<Tag>> ZvtSerializerImpl<L, E, TE> for NaiveDateTime {
